@@ -22,9 +22,16 @@ SPEC = {'id': 'C15',
      'pop_skips_closed', 'purge_removes_only_closed', 'end_once_guarded', 'end_body_order',
      'connectLoop_shape', 'close_calls_end', 'connect_checks_error_first', 'connect_failures_return',
      'peer_close_once']],
- 'harness': [{'pkg': 'client/lib', 'test': 'TestVerifC15', 'checklinkname': True}],
- 'overlay': {'client/lib/zz_verif_c15_test.go': 'c15_clientlib_test.go'},
- 'rule': 'cases = sequential scripts over collect | pop | closePeer i | end | count (max 1..4, 3-13 ops, scripted Catch '
+ 'harness': [{'pkg': 'client/lib', 'test': 'TestVerifC15$', 'checklinkname': True},
+             {'pkg': 'client', 'test': 'TestVerifC15Binary$', 'checklinkname': True, 'timeout': '10m'}],
+ 'parallel': 2,
+ 'overlay': {'client/lib/zz_verif_c15_test.go': 'c15_clientlib_test.go',
+             'client/zz_verif_c15_test.go': 'c15_client_binary_test.go'},
+ 'rule': 'binary level (oracle-only): the real client binary run as a managed transport with an unreachable broker, '
+         'hand-made SOCKS5 connections with pt arguments, -ice absent / blank / trailing comma / garbage and ice= SOCKS '
+         'arguments, SIGTERM or stdin close with and without a SOCKS connection still open: the process must stay alive '
+         'under failing rendezvous and exit within 25 s of the shutdown request; '
+         'cases = sequential scripts over collect | pop | closePeer i | end | count (max 1..4, 3-13 ops, scripted Catch '
          'outcomes; fixed scripts for End twice and for stale spares with max 2..4) run on the real Peers with a '
          'scripted Tongue, every op in its own goroutine with a deadline (outcomes ok/err/blocked/panic, late '
          'completions attributed to the op that released them); concurrent templates (End during an in-flight Catch, '
